@@ -248,7 +248,7 @@ fn main() {
     let mut model = args.model();
     probes(&mut rep);
     let mut rng = Rng::new(args.seed);
-    let n = args.n(1500, 40000);
+    let n = args.n(1500, 20000);
     for i in 0..n {
         let mut r = rng.fork();
         let max_rows = if args.quick() { 8 } else { 20 };
